@@ -20,21 +20,29 @@ open NfcVerif NfcVerif.Clf
 
 /-! ## arguments of `sense()` / `listen()` -/
 
+/-- `s.endswith(t)` on `str` -/
+def endsWith (s t : String) : Bool := t.toList.isSuffixOf s.toList
+
 /-- what the inner loop of `sense()` reads of a `RemoteTarget`: `atr_req` (None or octets), `sel_req` (None = empty)
-and the last letter of `brty` (`brty.endswith('A')`, `('B')`, `('F')`) -/
+and `brty` (e.g. "106A": the last letter is the technology) -/
 structure RT where
   atr : Option Bytes
   sel : Bytes
-  isA : Bool
-  isB : Bool
-  isF : Bool
+  brty : String
   deriving DecidableEq, Repr, Inhabited
 
 /-- the model's description of a target: an `atr_req` wins over the technology letter, then A, B, F in this order -/
 def RT.spec (t : RT) : TgtSpec :=
   match t.atr with
   | some a => .dep a.length
-  | none => if t.isA then .a t.sel.length else if t.isB then .b else if t.isF then .f else .unknown
+  | none =>
+    if endsWith t.brty "A" then .a t.sel.length
+    else if endsWith t.brty "B" then .b
+    else if endsWith t.brty "F" then .f
+    else .unknown
+
+/-- `LocalTarget.brty`: one bitrate/type string, or "send/recv" when the two directions differ -/
+def localBrty (send recv : String) : String := if send = recv then send else send ++ "/" ++ recv
 
 /-- an argument of `sense()`: `none` = not a `RemoteTarget` at all -/
 def argSpec : Option RT → TgtSpec
